@@ -193,6 +193,7 @@ class Interp:
         self.pseudo: set = set()  # identities of elements selected by index / pop (always current)
         self.collectors: list = []  # (uncertainty level, fields definitely written) per open branch of an undecided `if`
         self.scalar_calls: list = []  # (method name, provenance tags of the scalar receiver)
+        self.stmt_call = None  # the call that makes up the expression statement being interpreted
         self.in_while = 0  # > 0 while the body of a `while` loop is interpreted (picks there are how the loop iterates)
         self._accumulating = False
 
@@ -252,6 +253,21 @@ class Interp:
             self.adopt(c, new)
             c.elem |= new
             self.version += 1
+
+    @staticmethod
+    def effective_part(c) -> set:
+        """Incompleteness marks of a collection; an element added under `T` in one branch and under `not T` in the other branch
+        of the same test is added either way: the two marks cancel."""
+        part = c.part
+        if len(part) < 2:
+            return part
+        gone = set()
+        for m in part:
+            if m[0] == "part" and m[2].startswith("only if `not "):
+                twin = next((o for o in part if o[0] == "part" and o[1] == m[1] and o[2] == "only if `" + m[2][len("only if `not "):]), None)
+                if twin is not None:
+                    gone |= {m, twin}
+        return part - gone if gone else part
 
     def add_part(self, ref: Ref, marks) -> None:
         c = self.cells[ref.key]
@@ -337,6 +353,12 @@ class Interp:
         if why not in self.tops:
             self.tops.append(why)
         return V(Top(why))
+
+    def note_lost(self, why: str) -> None:
+        """The interpreter may have lost track of some data here (no value becomes Top): rules that find something *missing* must
+        answer undecided."""
+        if why not in self.tops:
+            self.tops.append(why)
 
     def site(self, fr: Frame | None, node: ast.AST | None) -> str:
         if fr is None or node is None:
@@ -440,8 +462,9 @@ class Interp:
         for sh in v:
             if isinstance(sh, Ref) and sh.kind == "coll":
                 c = self.cell(sh)
-                if c.part:
-                    out |= self.with_marks(frozenset(c.elem), c.part, ("pm", sh.key))
+                part = self.effective_part(c)
+                if part:
+                    out |= self.with_marks(frozenset(c.elem), part, ("pm", sh.key))
                 else:
                     out |= c.elem
             elif isinstance(sh, Ref) and sh.kind == "dict":
@@ -464,9 +487,36 @@ class Interp:
                 if c.ci is not None and any(b.rsplit(".", 1)[-1] == "NamedTuple" for b in self.repo.external_bases(c.ci)):
                     for fv in c.fields.values():
                         out |= fv
+                elif c.ci is not None and self.repo.lookup_method(c.ci, "__iter__") is not None:
+                    out |= self.elems(self.call_fn(self.repo.lookup_method(c.ci, "__iter__"), V(sh), [], {}, c.ci.node, None))
                 else:
                     out |= self.top(f"iteration over an instance of {c.ci.name if c.ci else 'an object'} is not modelled")
+            elif isinstance(sh, Cls) and self.is_enum(sh.fq):
+                for n in self.enum_members(sh.fq):
+                    out |= self.enum_member(sh.fq, n)
+            elif isinstance(sh, (Cls, Lib, Fn, Getter, Partial)):
+                out |= self.top(f"iteration over {type(sh).__name__} {getattr(sh, 'fq', getattr(sh, 'name', ''))} is not modelled")
         return frozenset(out)
+
+    # ------------------------------------------------------------------ enumerations
+    def is_enum(self, fq: str) -> bool:
+        ci = self.repo.classes.get(fq)
+        return ci is not None and any(b.rsplit(".", 1)[-1] in ("Enum", "IntEnum", "StrEnum", "Flag", "IntFlag") for b in self.repo.external_bases(ci))
+
+    def enum_members(self, fq: str) -> list[str]:
+        ci = self.repo.classes[fq]
+        return [n for n in ci.class_attrs if not n.startswith("_")]
+
+    def enum_member(self, fq: str, name: str) -> frozenset:
+        ci = self.repo.classes[fq]
+        r = self.obj(("enum", fq, name), ci, ci.module.relpath)
+        if "name" not in self.cell(r).fields:
+            ce = ci.class_attrs[name]
+            val = V(Const(ce.value)) if isinstance(ce, ast.Constant) else (self.ev(ce, {}, self.module_frame(ci.module, ("enum", fq, name))) if self.static_expr(ci.module, ce) else V(Opaque(f"{fq}.{name}")))
+            self.cell(r).fields["name"] = V(Const(name))
+            self.cell(r).fields["value"] = val
+            self.cell(r).fields["_value_"] = val
+        return V(r)
 
     def derive(self, parts: list[frozenset], fr: Frame | None, node: ast.AST | None, check: bool = True, agg: bool = False, none: bool = False) -> frozenset:
         """Scalar computed from the given values (formatting, concatenation, attribute of, library function of)."""
@@ -689,7 +739,7 @@ class Interp:
             return V(self.dict_(("const", mod.name, name), mod.relpath))
         return self.ev(c, {}, self.module_frame(mod, ("const", mod.name, name)))
 
-    STATIC_CALLS = {"frozenset", "set", "tuple", "list", "dict", "defaultdict", "OrderedDict", "itemgetter", "attrgetter", "methodcaller", "partial", "staticmethod", "MappingProxyType"}
+    STATIC_CALLS = {"frozenset", "set", "tuple", "list", "dict", "defaultdict", "OrderedDict", "itemgetter", "attrgetter", "methodcaller", "partial", "staticmethod", "MappingProxyType", "Template"}
 
     def static_expr(self, mod, e: ast.AST, seen: frozenset = E, depth: int = 0) -> bool:
         """Can the module / class level expression be evaluated without running code of the repository?  (It is built from
@@ -803,6 +853,7 @@ class Interp:
         if self.steps > 400000:
             raise RuntimeError("abstract interpretation budget exceeded")
         if isinstance(s, ast.Expr):
+            self.stmt_call = s.value  # a call whose result is thrown away is made for its effect
             self.ev(s.value, env, fr)
             return env
         if isinstance(s, ast.Assign):
@@ -889,11 +940,15 @@ class Interp:
                 fr.loops[-1]["cont"] = self.join_env(fr.loops[-1]["cont"], env)
             return None
         if isinstance(s, (ast.With, ast.AsyncWith)):
+            exits = []
             for it in s.items:
-                v = self.ev(it.context_expr, env, fr)
+                v = self.enter_context(it.context_expr, env, fr, exits)
                 if it.optional_vars is not None:
                     self.assign(it.optional_vars, v, env, fr)
-            return self.exec_block(s.body, env, fr)
+            out = self.exec_block(s.body, env, fr)
+            for obj, m in reversed(exits):
+                self.call_fn(m, obj, [NONE_V, NONE_V, NONE_V], {}, s, fr, caller_env=env)
+            return out
         if isinstance(s, ast.Try):
             pre = dict(env)
             a = self.exec_block(s.body, env, fr)
@@ -927,14 +982,131 @@ class Interp:
             self.ev(s.test, env, fr)
             return env
         if isinstance(s, ast.Match):
-            self.ev(s.subject, env, fr)
+            sv = self.ev(s.subject, env, fr)
             out = None
-            for c in s.cases:
-                out = self.join_env(out, self.exec_block(c.body, dict(env), fr))
-            return self.join_env(out, env)
+            exhaustive = False
+            self.uncertain += 1
+            try:
+                for c in s.cases:
+                    verdict = self.pattern_verdict(c.pattern, sv, env, fr) if c.guard is None else (False if self.pattern_verdict(c.pattern, sv, env, fr) is False else None)
+                    if verdict is False:
+                        continue
+                    cenv = dict(env)
+                    self.bind_pattern(c.pattern, sv, cenv, fr)
+                    if c.guard is not None:
+                        gv = self.ev(c.guard, cenv, fr)
+                        if self.as_bool(gv) is False:
+                            continue
+                        if self.as_bool(gv) is None and self.classify_cond(c.guard, gv, cenv, fr) == "data":
+                            fr.ctrl.append((c.guard, True, "data", E))
+                            try:
+                                out = self.join_env(out, self.exec_block(c.body, cenv, fr))
+                            finally:
+                                fr.ctrl.pop()
+                            continue
+                    if verdict is True:
+                        exhaustive = True
+                        if out is None:
+                            # the one case that is taken
+                            self.uncertain -= 1
+                            try:
+                                return self.exec_block(c.body, cenv, fr)
+                            finally:
+                                self.uncertain += 1
+                    out = self.join_env(out, self.exec_block(c.body, cenv, fr))
+                    if verdict is True:
+                        break
+            finally:
+                self.uncertain -= 1
+            return out if exhaustive else self.join_env(out, env)
         if isinstance(s, (ast.Delete, ast.Global, ast.Nonlocal, ast.Import, ast.ImportFrom, ast.ClassDef)):
             return env
         return env
+
+    def enter_context(self, e: ast.expr, env: dict, fr: Frame, exits: list) -> frozenset:
+        """Value bound by `with <e> as x`: what a @contextmanager generator yields (its body is interpreted as a whole - the part
+        after the yield runs before the with-body, which only makes collections it fills known earlier), the result of __enter__
+        for objects of repository classes (their __exit__ is interpreted after the body), the object itself otherwise."""
+        if isinstance(e, ast.Call):
+            fv = self.ev(e.func, env, fr) if not (isinstance(e.func, ast.Attribute) and isinstance(e.func.value, ast.Call) and isinstance(e.func.value.func, ast.Name) and e.func.value.func.id == "super") else E
+            fns = [sh for sh in fv if isinstance(sh, Fn)]
+            if fns and len(fns) == len(fv) and all(any(d.rsplit(".", 1)[-1] in ("contextmanager", "asynccontextmanager") for d in f.func.decorators) for f in fns):
+                return self.elems(self.call(e, env, fr))
+        v = self.ev(e, env, fr)
+        out: set = set()
+        for sh in v:
+            ci = self.cell(sh).ci if isinstance(sh, Ref) and sh.kind == "obj" else None
+            enter = self.repo.lookup_method(ci, "__enter__") if ci is not None else None
+            if enter is not None:
+                out |= self.call_fn(enter, V(sh), [], {}, e, fr, caller_env=env)
+                ex = self.repo.lookup_method(ci, "__exit__")
+                if ex is not None:
+                    exits.append((V(sh), ex))
+            else:
+                out.add(sh)
+        return frozenset(out)
+
+    def bind_pattern(self, pat: ast.AST, v: frozenset, env: dict, fr: Frame) -> None:
+        """Names captured by a `case` pattern."""
+        if isinstance(pat, ast.MatchAs):
+            if pat.pattern is not None:
+                self.bind_pattern(pat.pattern, v, env, fr)
+            if pat.name:
+                env[pat.name] = v
+        elif isinstance(pat, ast.MatchSequence):
+            star = any(isinstance(x, ast.MatchStar) for x in pat.patterns)
+            for i, sub in enumerate(pat.patterns):
+                part: set = set()
+                for sh in v:
+                    if isinstance(sh, Tup) and not star and len(sh.items) == len(pat.patterns):
+                        part |= sh.items[i]
+                    elif isinstance(sh, Tup):
+                        if not star:
+                            continue  # a tuple of another length does not match
+                        for it in sh.items:
+                            part |= it
+                    else:
+                        part |= self.elems(V(sh))
+                if isinstance(sub, ast.MatchStar):
+                    if sub.name:
+                        env[sub.name] = V(self.coll((id(sub), fr.inv, "star"), self.site(fr, sub), frozenset(part)))
+                else:
+                    self.bind_pattern(sub, frozenset(part), env, fr)
+        elif isinstance(pat, ast.MatchClass):
+            ci = None
+            for sh in self.ev(pat.cls, env, fr):
+                if isinstance(sh, Cls):
+                    ci = self.repo.classes.get(sh.fq)
+            names = list(ci.ann_attrs) if ci is not None else []
+            for i, sub in enumerate(pat.patterns):
+                self.bind_pattern(sub, self.attr(v, names[i], pat, env, fr) if i < len(names) else self.top("positional class pattern of an unknown class"), env, fr)
+            for n, sub in zip(pat.kwd_attrs, pat.kwd_patterns):
+                self.bind_pattern(sub, self.attr(v, n, pat, env, fr), env, fr)
+        elif isinstance(pat, ast.MatchOr):
+            for sub in pat.patterns:
+                self.bind_pattern(sub, v, env, fr)
+        elif isinstance(pat, ast.MatchMapping):
+            for sub in pat.patterns:
+                self.bind_pattern(sub, self.top("mapping pattern"), env, fr)
+            if pat.rest:
+                env[pat.rest] = self.top("mapping pattern")
+        # MatchValue / MatchSingleton capture nothing
+
+    def pattern_verdict(self, pat: ast.AST, v: frozenset, env: dict, fr: Frame) -> bool | None:
+        """True: always matches, False: never, None: unknown."""
+        if isinstance(pat, ast.MatchAs) and pat.pattern is None:
+            return True
+        if isinstance(pat, (ast.MatchValue, ast.MatchSingleton)):
+            pv = self.ev(pat.value, env, fr) if isinstance(pat, ast.MatchValue) else V(Const(pat.value))
+            if len(v) == 1 and len(pv) == 1 and isinstance(next(iter(v)), Const) and isinstance(next(iter(pv)), Const):
+                return next(iter(v)).value == next(iter(pv)).value and type(next(iter(v)).value) is type(next(iter(pv)).value)
+            ids = lambda x: {sh.key for sh in x if isinstance(sh, Ref) and sh.kind == "obj" and isinstance(sh.key, tuple) and sh.key and sh.key[0] == "enum"}  # noqa: E731
+            if v and pv and len(ids(v)) == len(v) and len(ids(pv)) == len(pv):
+                return True if ids(v) == ids(pv) and len(ids(v)) == 1 else (False if not (ids(v) & ids(pv)) else None)
+        if isinstance(pat, ast.MatchOr):
+            vs = [self.pattern_verdict(x, v, env, fr) for x in pat.patterns]
+            return True if True in vs else (False if all(x is False for x in vs) else None)
+        return None
 
     def early_exit(self, loop: ast.AST) -> ast.AST | None:
         """A `break`, or a `return` inside the loop body (the iteration may stop before the last element)."""
@@ -1338,6 +1510,10 @@ class Interp:
             parts = [self.text_of(self.ev(x.value, env, fr), x, fr) for x in e.values if isinstance(x, ast.FormattedValue)]
             if not parts:
                 return V(Const("".join(x.value for x in e.values if isinstance(x, ast.Constant))))
+            if all(len(p) == 1 and isinstance(next(iter(p)), Const) and isinstance(next(iter(p)).value, (str, int)) for p in parts) and all(x.format_spec is None and x.conversion == -1 for x in e.values if isinstance(x, ast.FormattedValue)):
+                # built from constants only (`f"_create_{kind}_messages"`): a constant
+                it_ = iter(parts)
+                return V(Const("".join(x.value if isinstance(x, ast.Constant) else str(next(iter(next(it_))).value) for x in e.values)))
             return self.derive(parts, fr, e)
         if isinstance(e, ast.BinOp):
             return self.binop(self.ev(e.left, env, fr), self.ev(e.right, env, fr), e.op, e, fr)
@@ -1566,7 +1742,8 @@ class Interp:
                 out |= self.dict_lookup(sh, key, e, fr)
             elif isinstance(sh, Ref) and sh.kind == "coll":
                 fixed = len(key) == 1 and isinstance(next(iter(key)), Const) and isinstance(next(iter(key)).value, int)
-                out |= self.pick(self.elems(V(sh)), (sh.key, norm(e.slice, 40), fr.inv), self.site(fr, e), f"only the element `{norm(e, 60)}` is used" if fixed else "")
+                # `xs[i]` and `ys[i]` (parallel lists, e.g. after `xs, ys = zip(*pairs)`) denote parts of one pair: one identity per index expression
+                out |= self.pick(self.elems(V(sh)), ("idx", norm(e.slice, 40), fr.inv), self.site(fr, e), f"only the element `{norm(e, 60)}` is used" if fixed else "")
             elif isinstance(sh, Tup):
                 idx = next(iter(key)).value if len(key) == 1 and isinstance(next(iter(key)), Const) else None
                 if isinstance(idx, int) and -len(sh.items) <= idx < len(sh.items):
@@ -1624,7 +1801,11 @@ class Interp:
                     out |= v
                     continue
                 m = self.repo.lookup_method(c.ci, name) if c.ci is not None else None
-                if m is not None and m.is_property:
+                if m is not None and any(d.rsplit(".", 1)[-1] == "cached_property" for d in m.decorators):
+                    v = self.call_fn(m, V(sh), [], {}, node, fr)
+                    self.set_field(sh, name, v, strong=False)
+                    out |= v
+                elif m is not None and m.is_property:
                     out |= self.call_fn(m, V(sh), [], {}, node, fr)
                 elif m is not None:
                     out.add(Fn(m, V(sh)))
@@ -1643,6 +1824,8 @@ class Interp:
                 m = self.repo.lookup_method(ci, name) if ci else None
                 if m is not None:
                     out.add(Fn(m, V(sh) if m.is_classmethod else None))
+                elif ci is not None and self.is_enum(sh.fq) and name in self.enum_members(sh.fq):
+                    out |= self.enum_member(sh.fq, name)
                 elif ci is not None and any(name in k.class_attrs for k in self.repo.mro(ci)):
                     out |= self.class_attr(ci, name, None)
                 else:
@@ -1941,10 +2124,15 @@ class Interp:
                 return self.derive([V(sh) if isinstance(sh, Sc) else E, *[self.text_of(a, call, fr) for a in [*args, *kwargs.values()]]], fr, call)
             if name in ("split", "rsplit", "splitlines", "partition", "rpartition"):
                 return V(self.coll((id(call), fr.inv, "split"), self.site(fr, call), self.derive([V(sh) if isinstance(sh, Sc) else E], fr, call, check=False)))
-            return self.derive([V(sh) if isinstance(sh, Sc) else E, *[a for a in args if not any(isinstance(x, Ref) for x in a)]], fr, call, check=False)
+            if name in ("substitute", "safe_substitute"):
+                return self.derive([V(sh) if isinstance(sh, Sc) else E, *[self.text_of(a, call, fr) for a in [*args, *kwargs.values()]]], fr, call)
+            return self.derive([V(sh) if isinstance(sh, Sc) else E, *[a for a in [*args, *kwargs.values()] if not any(isinstance(x, Ref) for x in a)]], fr, call, check=False)
         if isinstance(sh, Opaque):
             if any(isinstance(x, Ref) and x.kind in ("coll", "dict") for a in [*args, *kwargs.values()] for x in a):
                 return self.top(f"`{norm(call, 70)}`: method of an unmodelled object receives a collection")
+            if call is self.stmt_call and any(sc.srcs - {x for x in sc.srcs if str(x).startswith("fld:")} for a in [*args, *kwargs.values()] for sc in self.scalars(a)):
+                # reported data is handed, for the effect of the call, to an object the interpreter knows nothing about (a writer, a sink ...)
+                self.note_lost(f"`{norm(call, 70)}`: data is handed to an unmodelled object")
             return self.derive([*args, *kwargs.values()], fr, call, check=False, none=True)
         if isinstance(sh, Tup):
             return V(Sc())
@@ -1994,6 +2182,16 @@ class Interp:
             return V(r)
         if name in ("index", "count", "issubset", "issuperset", "isdisjoint", "__len__", "__contains__"):
             return self.derive([self.elems(V(sh))], fr, call, check=False, agg=True)
+        if name in ("write", "writelines") and isinstance(sh.key, tuple) and sh.key[-1] == "lib":
+            # text buffer (io.StringIO)
+            v = args[0] if name == "write" else self.elems(args[0]) if args else E
+            self.add(sh, v)
+            self.note_mutation([sh], v, call, env, fr)
+            return V(Sc())
+        if name == "getvalue":
+            return self.derive([self.text_of(self.elems(V(sh)), call, fr)], fr, call, check=False, agg=True)
+        if name in ("close", "flush", "seek", "truncate"):
+            return NONE_V
         return self.top(f"collection method {name}")
 
     def dict_method(self, sh: Ref, name: str, args, kwargs, call: ast.Call, env: dict, fr: Frame) -> frozenset:
@@ -2086,6 +2284,7 @@ class Interp:
             # starmap(f, tuples): f(*t) per element
             r = self.coll(key, site)
             e = self.eid((id(call), "starmap", fr.inv), site)
+            self.loop_eids.add(e)
             first = self.elems(args[1])
             self.active.append(e)
             try:
@@ -2197,6 +2396,7 @@ class Interp:
         if name == "map" and len(args) >= 2:
             r = self.coll(key, site)
             e = self.eid((id(call), "map", fr.inv), site)
+            self.loop_eids.add(e)
             first = self.elems(args[1])
             alts = [V(sh) for sh in first] if 0 < len(first) <= 64 else [first]
             self.active.append(e)
@@ -2274,7 +2474,69 @@ class Interp:
                 for n in list(self.cell(o).fields):
                     self.store_entry(d, V(Const(n)), self.attr(V(o), n, call, env, fr))
             return V(d)
+        if name in ("io.StringIO", "StringIO"):
+            r = self.coll(key, site)
+            for a in args:
+                self.add(r, a)
+            return V(r)
+        if name == "print" and "file" in kwargs:
+            for sh in kwargs["file"]:
+                if isinstance(sh, Ref) and sh.kind == "coll":
+                    v = self.derive([self.text_of(a, call, fr) for a in args], fr, call) if args else E
+                    self.add(sh, v)
+                    self.note_mutation([sh], v, call, env, fr)
+                elif not (isinstance(sh, Const) and sh.value is None):
+                    self.note_lost(f"`{norm(call, 60)}`: printed to an unmodelled stream")
+            return NONE_V
+        if name in ("bisect.insort", "bisect.insort_left", "bisect.insort_right", "insort", "insort_left", "insort_right", "heapq.heappush", "heappush") and len(args) >= 2:
+            for sh in args[0]:
+                if isinstance(sh, Ref) and sh.kind == "coll":
+                    v = self.unvet(self.select(args[1], call, env, fr))
+                    self.add(sh, v)
+                    self.note_mutation([sh], v, call, env, fr)
+            return NONE_V
+        if name in ("heapq.merge", "merge"):
+            r = self.coll(key, site)
+            for a in args:
+                self.add(r, self.unvet(self.elems(a)))
+            return V(r)
+        if name in ("heapq.nsmallest", "heapq.nlargest", "nsmallest", "nlargest") and len(args) >= 2:
+            r = self.coll(key, site, self.elems(args[1]))
+            grouped = any(self.live(sc.assoc - sc.gone) for sc in self.scalars(self.elems(args[1])))
+            self.add_part(r, [("part", site, f"`{norm(call, 60)}` keeps only some elements", grouped)])
+            return V(r)
         if name in ("print", "warnings.warn"):
+            return NONE_V
+        if name in ("dataclasses.replace", "replace", "copy.copy", "copy.deepcopy", "copy", "deepcopy") and args and all(isinstance(sh, Ref) for sh in args[0]) and args[0]:
+            out = set()
+            for sh in args[0]:
+                if sh.kind == "obj":
+                    src = self.cell(sh)
+                    r = self.obj((key, "copy", sh.key), src.ci, site)
+                    for n, fv in list(src.fields.items()):
+                        self.set_field(r, n, self.attr(V(sh), n, call, env, fr) if src.ci is not None and src.ci.is_dataclass else fv, strong=False)
+                    for n, fv in kwargs.items():
+                        self.cell(r).fields[n] = fv if len(args[0]) == 1 else self.cell(r).fields.get(n, E) | fv
+                        self.version += 1
+                    out.add(r)
+                elif sh.kind == "coll":
+                    r = self.coll((key, "copy", sh.key), site, self.elems(V(sh)))
+                    self.cell(r).order = self.cell(sh).order
+                    out.add(r)
+                else:
+                    r = self.dict_((key, "copy", sh.key), site)
+                    for k, v in list(self.cell(sh).entries):
+                        self.store_entry(r, k, v)
+                    out.add(r)
+            return frozenset(out)
+        if name == "setattr" and len(args) == 3:
+            names = [c.value for c in args[1] if isinstance(c, Const) and isinstance(c.value, str)]
+            if not names or len(names) != len(args[1]):
+                return self.top("setattr with a computed name")
+            for sh in args[0]:
+                if isinstance(sh, Ref) and sh.kind == "obj":
+                    for n in names:
+                        self.set_field(sh, n, args[2], strong=len(args[0]) == 1 and len(names) == 1)
             return NONE_V
         if name == "getattr" and len(args) >= 2:
             names = [c.value for c in args[1] if isinstance(c, Const) and isinstance(c.value, str)]
